@@ -1,4 +1,5 @@
 import Bandit.Drv.Core
+import Bandit.Drv.Metrics
 /-!
 # Line-protocol driver: one JSON request per line on stdin, one JSON answer per line on stdout.
 -/
@@ -7,7 +8,7 @@ open Lean Bandit
 namespace Drv
 
 /-- all registered ops; each area appends its own list here -/
-def allOps : List Op := coreOps
+def allOps : List Op := coreOps ++ MetricsOps.ops
 
 def handle (line : String) : String :=
   match Json.parse line with
